@@ -487,8 +487,8 @@ theorem loop_spec (m : KMaps) (pk : PktK) (start : Nat) (tries : List (List Pref
 /-! ## `route()` on an installed generation -/
 
 
-/-- What one completed `buildRoutingKernspace` leaves in the maps (whatever they held before). -/
-structure Installed (m : KMaps) (start : Nat) (kp : List KEntry) (tries : List (List Prefix)) : Prop where
+/-- Exact form: every rule image IS the Go encoders' image (what `installGen` produces). -/
+structure InstalledExact (m : KMaps) (start : Nat) (kp : List KEntry) (tries : List (List Prefix)) : Prop where
   len : m.activeLen = kp.length
   bound : kp.length ≤ MaxMatchSetLen
   rules : ∀ i (h : i < kp.length), m.routing[i]? = some (encodeGo .little (kp[i].rewrite start))
@@ -512,8 +512,8 @@ theorem c0_eq (pk : PktK) : (if isDnsQuery pk then ST_DNS else 0) = mkS false fa
 theorem pack_nonneg (a b : Nat) (c : Bool) : pack a b c ≥ 0 := by
   unfold pack; exact Int.natCast_nonneg _
 
-theorem routeK_main (m : KMaps) (pk : PktK) (start : Nat) (kp : List KEntry) (tries : List (List Prefix))
-    (ubm : List Nat) (hI : Installed m start kp tries) (hT : ∀ t ∈ tries, ∀ p ∈ t, p.WF) (hP : PktOK pk)
+theorem routeK_main_exact (m : KMaps) (pk : PktK) (start : Nat) (kp : List KEntry) (tries : List (List Prefix))
+    (ubm : List Nat) (hI : InstalledExact m start kp tries) (hT : ∀ t ∈ tries, ∀ p ∈ t, p.WF) (hP : PktOK pk)
     (hD : ∀ w, m.domainWord pk.daddr w = ubm.getD w 0) (hK : ∀ k ∈ kp, EntryOK tries.length k) :
     routeK .little m pk = expectedK pk (matchU kp tries ubm pk) := by
   have H : Hyp m pk start tries ubm := ⟨hI.lpm, hT, hP.saddr, hP.daddr, hP.mac, hP.l4, hP.ipv, hP.dscp, hP.lanNoPname, hD⟩
@@ -587,9 +587,9 @@ theorem ringSlot_inj (start a b : Nat) (ha : a < MaxMatchSetLen) (hb : b < MaxMa
     (h : ringSlot start a = ringSlot start b) : a = b := by
   unfold ringSlot MaxMatchSetLen at *; omega
 
-theorem installGen_installed (start : Nat) (kp : List KEntry) (tries : List (List Prefix)) (m0 : KMaps)
+theorem installGen_exact (start : Nat) (kp : List KEntry) (tries : List (List Prefix)) (m0 : KMaps)
     (hk : kp.length ≤ MaxMatchSetLen) (ht : tries.length ≤ MaxMatchSetLen) :
-    Installed (installGen .little start kp tries m0) start kp tries := by
+    InstalledExact (installGen .little start kp tries m0) start kp tries := by
   refine ⟨rfl, hk, ?_, ?_⟩
   · intro i hi
     simp only [installGen, overwritePrefix]
@@ -792,10 +792,6 @@ instance (n : Nat) (k : KEntry) : Decidable (EntryOK n k) :=
   decidable_of_iff (k.cond.WF n ∧ k.outbound < 256 ∧ k.mark < 2 ^ 32)
     ⟨fun ⟨a, b, c⟩ => ⟨a, b, c⟩, fun h => ⟨h.cond, h.ob, h.mark⟩⟩
 
-theorem Installed.with_domain {m : KMaps} {start : Nat} {kp : List KEntry} {tries : List (List Prefix)}
-    (h : Installed m start kp tries) (dom : List (Nat × List Nat)) : Installed { m with domain := dom } start kp tries :=
-  ⟨h.len, h.bound, h.rules, h.lpm⟩
-
 /-- The kernel's field readers, applied to the image the Go encoders write on a host of byte order
 `e`, return what the builder meant. -/
 def FieldsAgree (e : Endian) (k : KEntry) : Prop :=
@@ -843,6 +839,130 @@ theorem fieldsAgree_little (k : KEntry) (hc : k.cond.WF (2 ^ 32)) (hob : k.outbo
 
 /-! ## key equivalence, the executable `Installed` check, slot deletion -/
 
+/-! ## `Installed`: what the kernel READS of every rule image is the typed entry -/
+
+/-- What one completed `buildRoutingKernspace` leaves in the maps (whatever they held before):
+the active length, rule images whose kernel-read fields are the ring-rewritten typed entries, and
+LPM slots lookup-equivalent to the sets. -/
+structure Installed (m : KMaps) (start : Nat) (kp : List KEntry) (tries : List (List Prefix)) : Prop where
+  len : m.activeLen = kp.length
+  bound : kp.length ≤ MaxMatchSetLen
+  rules : ∀ i (h : i < kp.length), ∃ img, m.routing[i]? = some img ∧ readsAs img (kp[i].rewrite start) = true
+  lpm : ∀ idx (h : idx < tries.length), ∃ keys, m.lpmAt (ringSlot start idx) = some keys ∧
+    ∀ a, lpmLookup keys a = lpmLookup (tries[idx].map cidrToKey) a
+
+theorem Installed.with_domain {m : KMaps} {start : Nat} {kp : List KEntry} {tries : List (List Prefix)}
+    (h : Installed m start kp tries) (dom : List (Nat × List Nat)) : Installed { m with domain := dom } start kp tries :=
+  ⟨h.len, h.bound, h.rules, h.lpm⟩
+
+
+theorem readsAs_encode (k : KEntry) (hc : k.cond.WF (2 ^ 32)) (hob : k.outbound < 256) (hmk : k.mark < 2 ^ 32) :
+    readsAs (encodeGo .little k) k = true := by
+  obtain ⟨h1, h2, h3, h4, h5, h6⟩ := fieldsAgree_little k hc hob hmk
+  unfold readsAs
+  rw [h1, h2, h3, h4, h5, bpfBool_ne_zero, bpfBool_ne_zero]
+  obtain ⟨cond, nt, ob, must, mark⟩ := k
+  cases cond <;> simp only at h6 ⊢ <;> simp [h6]
+
+theorem entryOK_rewrite (n start : Nat) (k : KEntry) (h : EntryOK n k) :
+    (k.rewrite start).cond.WF (2 ^ 32) ∧ (k.rewrite start).outbound < 256 ∧ (k.rewrite start).mark < 2 ^ 32 := by
+  refine ⟨?_, h.ob, h.mark⟩
+  have hc := h.cond
+  obtain ⟨cond, nt, ob, must, mark⟩ := k
+  cases cond <;> simp only [KEntry.rewrite, KCond.rewrite, KCond.WF] at hc ⊢ <;>
+    first | exact ringSlot_lt _ _ | exact hc | trivial
+
+/-- the fields of `readsAs`, as equations -/
+theorem readsAs_fields (img : List Nat) (k : KEntry) (h : readsAs img k = true) :
+    msType img = k.cond.mtype ∧ (msNot img != 0) = k.not ∧ msOutbound img = k.outbound ∧
+    (msMust img != 0) = k.must ∧ msMark .little img = k.mark := by
+  unfold readsAs at h
+  simp only [Bool.and_eq_true, beq_iff_eq] at h
+  obtain ⟨⟨⟨⟨⟨h1, h2⟩, h3⟩, h4⟩, h5⟩, _⟩ := h
+  exact ⟨h1, h2, h3, h4, h5⟩
+
+theorem finalize_reads (c : RCtx) (a b : List Nat) (k : KEntry) (ha : readsAs a k = true) (hb : readsAs b k = true) :
+    finalizeMatch .little c a = finalizeMatch .little c b := by
+  obtain ⟨_, a2, a3, a4, a5⟩ := readsAs_fields a k ha
+  obtain ⟨_, b2, b3, b4, b5⟩ := readsAs_fields b k hb
+  unfold finalizeMatch
+  simp only [a2, a3, a4, a5, b2, b3, b4, b5]
+
+theorem eval_reads (m : KMaps) (pk : PktK) (c : RCtx) (a b : List Nat) (k : KEntry) (j : Nat)
+    (ha : readsAs a k = true) (hb : readsAs b k = true) :
+    evalMatch .little m pk c a j = evalMatch .little m pk c b j := by
+  obtain ⟨a1, _⟩ := readsAs_fields a k ha
+  obtain ⟨b1, _⟩ := readsAs_fields b k hb
+  unfold readsAs at ha hb
+  simp only [Bool.and_eq_true, beq_iff_eq] at ha hb
+  obtain ⟨_, ha6⟩ := ha
+  obtain ⟨_, hb6⟩ := hb
+  obtain ⟨cond, nt, ob, must, mark⟩ := k
+  unfold evalMatch matchLpm
+  cases cond <;> simp only [Bool.and_eq_true, beq_iff_eq] at ha6 hb6 <;>
+    simp [a1, b1, KCond.mtype, MT_Mac, MT_IpSet, MT_SourceIpSet, MT_Port, MT_SourcePort, MT_L4Proto, MT_IpVersion,
+      MT_DomainSet, MT_ProcessName, MT_Dscp, MT_Fallback, ha6, hb6]
+
+theorem bpfLoop_congr (f g : RCtx → Nat → RCtx × Bool) : ∀ (n i : Nat) (c : RCtx),
+    (∀ j c', i ≤ j → j < i + n → f c' j = g c' j) → bpfLoop f n i c = bpfLoop g n i c := by
+  intro n
+  induction n with
+  | zero => intro i c _; rfl
+  | succ n ih =>
+    intro i c h
+    unfold bpfLoop
+    rw [h i c (Nat.le_refl _) (by omega)]
+    simp only
+    split
+    · rfl
+    · exact ih (i + 1) _ (fun j c' h1 h2 => h j c' (by omega) (by omega))
+
+theorem loopCb_reads (m : KMaps) (r' : List (List Nat)) (pk : PktK) (c : RCtx) (j : Nat) (a b : List Nat) (k : KEntry)
+    (h1 : m.routing[j]? = some a) (h2 : r'[j]? = some b) (ha : readsAs a k = true) (hb : readsAs b k = true) :
+    loopCb .little m pk c j = loopCb .little { m with routing := r' } pk c j := by
+  unfold loopCb KMaps.routingAt
+  by_cases hj : j ≥ MaxMatchSetLen
+  · simp [hj]
+  · have hlt : j < MaxMatchSetLen := by omega
+    simp only [hj, if_false, hlt, if_true, List.getD_eq_getElem?_getD, h1, h2, Option.getD_some]
+    have e1 : ∀ c', evalMatch .little { m with routing := r' } pk c' b j = evalMatch .little m pk c' b j := fun _ => rfl
+    simp only [e1, eval_reads m pk _ a b k j ha hb, finalize_reads _ a b k ha hb]
+
+theorem routeK_main (m : KMaps) (pk : PktK) (start : Nat) (kp : List KEntry) (tries : List (List Prefix))
+    (ubm : List Nat) (hI : Installed m start kp tries) (hT : ∀ t ∈ tries, ∀ p ∈ t, p.WF) (hP : PktOK pk)
+    (hD : ∀ w, m.domainWord pk.daddr w = ubm.getD w 0) (hK : ∀ k ∈ kp, EntryOK tries.length k) :
+    routeK .little m pk = expectedK pk (matchU kp tries ubm pk) := by
+  have hex : InstalledExact { m with routing := (kp.map (KEntry.rewrite start)).map (encodeGo .little) } start kp tries :=
+    ⟨hI.len, hI.bound, by intro i hi; simp [hi], hI.lpm⟩
+  have hcongr : routeK .little m pk =
+      routeK .little { m with routing := (kp.map (KEntry.rewrite start)).map (encodeGo .little) } pk := by
+    unfold routeK
+    simp only
+    have hb := hI.bound
+    rw [bpfLoop_congr (loopCb .little m pk)
+      (loopCb .little { m with routing := (kp.map (KEntry.rewrite start)).map (encodeGo .little) } pk)]
+    intro j c' _ hj
+    have hjl : j < kp.length := by
+      rw [hI.len] at hj; simp only [hb, if_true] at hj; omega
+    obtain ⟨img, hi1, hi2⟩ := hI.rules j hjl
+    obtain ⟨w1, w2, w3⟩ := entryOK_rewrite tries.length start kp[j] (hK _ (List.getElem_mem hjl))
+    exact loopCb_reads m _ pk c' j img (encodeGo .little (kp[j].rewrite start)) (kp[j].rewrite start) hi1
+      (by simp [hjl]) hi2 (readsAs_encode _ w1 w2 w3)
+  rw [hcongr]
+  exact routeK_main_exact _ pk start kp tries ubm hex hT hP hD hK
+
+theorem InstalledExact.toInstalled {m : KMaps} {start : Nat} {kp : List KEntry} {tries : List (List Prefix)}
+    (h : InstalledExact m start kp tries) (hK : ∀ k ∈ kp, EntryOK tries.length k) : Installed m start kp tries := by
+  refine ⟨h.len, h.bound, ?_, h.lpm⟩
+  intro i hi
+  obtain ⟨w1, w2, w3⟩ := entryOK_rewrite tries.length start kp[i] (hK _ (List.getElem_mem hi))
+  exact ⟨_, h.rules i hi, readsAs_encode _ w1 w2 w3⟩
+
+theorem installGen_installed (start : Nat) (kp : List KEntry) (tries : List (List Prefix)) (m0 : KMaps)
+    (hk : kp.length ≤ MaxMatchSetLen) (ht : tries.length ≤ MaxMatchSetLen) (hK : ∀ k ∈ kp, EntryOK tries.length k) :
+    Installed (installGen .little start kp tries m0) start kp tries :=
+  (installGen_exact start kp tries m0 hk ht).toInstalled hK
+
 theorem lpmLookup_canon (l : List LpmKey) (x : Nat) :
     lpmLookup l x = (l.map canonKey).any fun c => c.2 == (natBits 128 x).take c.1 := by
   unfold lpmLookup canonKey
@@ -876,7 +996,10 @@ theorem installedB_sound (m : KMaps) (start : Nat) (kp : List KEntry) (tries : L
   refine ⟨h1, h2, ?_, ?_⟩
   · intro i hi
     have := h3 i hi
-    rw [this, List.getElem?_eq_getElem hi]; rfl
+    rw [List.getElem?_eq_getElem hi] at this
+    cases hr : m.routing[i]? with
+    | none => rw [hr] at this; simp at this
+    | some img => rw [hr] at this; exact ⟨img, rfl, this⟩
   · intro idx hidx
     have := h4 idx hidx
     rw [List.getElem?_eq_getElem hidx] at this
